@@ -3,7 +3,9 @@ Helper lemmas for C20 (beat-grid normalisation) over exact rational arithmetic.
 `qNum`, `QSorted`, `qtempo` are definitionally the `ratNum`, `Sorted`, `tempo`
 of Properties/C20.lean (which only re-exports the results below).
 -/
-import EngineModel.Pure.Beatgrid
+import EngineModel.Pure.BeatgridRat
+import Proofs.BeatgridGen
+import Proofs.BeatgridWindow
 import Mathlib.Data.Rat.Floor
 import Mathlib.Tactic.Linarith
 import Mathlib.Tactic.FieldSimp
@@ -13,45 +15,40 @@ import Mathlib.Tactic.Positivity
 namespace EngineModel.Pure.Beatgrid
 open EngineModel
 
-/-- Exact rational arithmetic; `ceil32` is the integer ceiling when it fits `int32_t`. -/
-def qNum : Num ℚ where
-  ofInt i := (i : ℚ)
-  add a b := a + b
-  sub a b := a - b
-  mul a b := a * b
-  div a b := a / b
-  lt a b := decide (a < b)
-  le a b := decide (a ≤ b)
-  ceil32 x := let c := Int.ceil x
-    if -2147483648 ≤ c ∧ c ≤ 2147483647 then some c else none
+/-- The exact-rational instance (`Pure/BeatgridRat.lean`, executable, run by the driver). -/
+abbrev qNum : Num ℚ := ratNum
 
 def QSorted (g : List (Marker ℚ)) : Prop :=
   g.Pairwise (fun a b => a.index < b.index ∧ a.off < b.off)
 
 def qtempo (a b : Marker ℚ) : ℚ := (b.off - a.off) / ((b.index - a.index : Int) : ℚ)
 
-/-- `x` fits `int32_t`. -/
-def In32 (x : Int) : Prop := -2147483648 ≤ x ∧ x ≤ 2147483647
+/-! ### the instance: `Rat.ceil` is the ceiling, the comparisons are a linear order -/
 
-instance (x : Int) : Decidable (In32 x) := by unfold In32; infer_instance
+theorem rat_ceil_eq (x : ℚ) : x.ceil = ⌈x⌉ := by
+  apply le_antisymm
+  · rw [Rat.ceil_le_iff]; exact Int.le_ceil x
+  · rw [Int.ceil_le]; exact Rat.le_ceil
 
-/-! ### Res / chk32 -/
+theorem qNum_ceil32 (x : ℚ) : qNum.ceil32 x = if In32 ⌈x⌉ then some ⌈x⌉ else none := by
+  show (if In32 x.ceil then some x.ceil else none) = _
+  rw [rat_ceil_eq]
 
-theorem bind_eq_ok {α β} {x : Res α} {f : α → Res β} {b : β} :
-    (x >>= f) = .ok b ↔ ∃ a, x = .ok a ∧ f a = .ok b := by
-  cases x <;> simp
+theorem qNum_ordLaws : OrdLaws qNum where
+  lt_asymm a b h := by
+    have h' : a < b := of_decide_eq_true h
+    exact decide_eq_false (not_lt.mpr h'.le)
+  lt_trans a b c h1 h2 := decide_eq_true (lt_trans (of_decide_eq_true h1) (of_decide_eq_true h2))
+  lt_of_lt_of_le a b c h1 h2 :=
+    decide_eq_true (lt_of_lt_of_le (of_decide_eq_true h1) (of_decide_eq_true h2))
+  le_of_le_of_lt a b c h1 h2 :=
+    decide_eq_true ((of_decide_eq_true h1 : a ≤ b).trans (of_decide_eq_true h2 : b < c).le)
 
-theorem chk32_eq (x : Int) : chk32 x = if In32 x then .ok x else .ub .signed_overflow := rfl
-
-theorem chk32_of_in32 {x : Int} (h : In32 x) : chk32 x = .ok x := by
-  rw [chk32_eq, if_pos h]
-
-theorem chk32_eq_ok {x y : Int} : chk32 x = .ok y ↔ (x = y ∧ In32 x) := by
-  rw [chk32_eq]; split <;> simp_all
-
-theorem chk32_cases (x : Int) :
-    (In32 x ∧ chk32 x = .ok x) ∨ (¬ In32 x ∧ chk32 x = .ub .signed_overflow) := by
-  rw [chk32_eq]; by_cases h : In32 x <;> simp [h]
+theorem qSorted_iff (g : List (Marker ℚ)) : QSorted g ↔ SortedBy qNum g := by
+  unfold QSorted SortedBy
+  constructor <;> intro h <;> refine h.imp ?_ <;> intro a b hab
+  · exact ⟨hab.1, decide_eq_true hab.2⟩
+  · exact ⟨hab.1, of_decide_eq_true hab.2⟩
 
 /-! ### the two moves, over ℚ, in closed form -/
 
@@ -66,65 +63,30 @@ def adjOf (p l : Marker ℚ) (n : Int) : Int := ⌈((n : ℚ) - l.off) / qtempo 
 def last' (p l : Marker ℚ) (n : Int) : Marker ℚ :=
   ⟨l.index + adjOf p l n, l.off + ((adjOf p l n : Int) : ℚ) * qtempo p l⟩
 
-theorem fixFirst_cons_cons (a b : Marker ℚ) (rest : List (Marker ℚ)) :
-    fixFirst qNum (a :: b :: rest) =
-      (chk32 (b.index - a.index) >>= fun di => chk32 (4 + a.index) >>= fun k =>
-        .ok (⟨-4, a.off - (k : ℚ) * ((b.off - a.off) / (di : ℚ))⟩ :: b :: rest)) := rfl
+theorem firstOf_q (a b : Marker ℚ) : firstOf qNum a b = first' a b := rfl
 
-theorem fixFirst_short (g : List (Marker ℚ)) (h : g.length < 2) : fixFirst qNum g = .ok g := by
-  rcases g with _ | ⟨a, _ | ⟨b, rest⟩⟩
-  · rfl
-  · rfl
-  · simp at h; omega
+theorem lastOf_q (p l : Marker ℚ) (n : Int) : lastOf qNum p l (adjOf p l n) = last' p l n := rfl
 
-theorem fixFirst_eq (a b : Marker ℚ) (rest : List (Marker ℚ)) :
-    fixFirst qNum (a :: b :: rest) =
-      if In32 (b.index - a.index) ∧ In32 (4 + a.index) then .ok (first' a b :: b :: rest)
-      else .ub .signed_overflow := by
-  rw [fixFirst_cons_cons]
-  rcases chk32_cases (b.index - a.index) with ⟨h1, e1⟩ | ⟨h1, e1⟩ <;>
-  rcases chk32_cases (4 + a.index) with ⟨h2, e2⟩ | ⟨h2, e2⟩ <;>
-  simp [e1, e2, h1, h2, first', qtempo]
+theorem beatsToEnd_q (p l : Marker ℚ) (n : Int) :
+    beatsToEnd qNum p l n = ((n : ℚ) - l.off) / qtempo p l := rfl
 
-theorem fixLast_append_two (pre : List (Marker ℚ)) (p l : Marker ℚ) (n : Int) :
-    fixLast qNum (pre ++ [p, l]) n =
-      if ¬ In32 (l.index - p.index) then .ub .signed_overflow
-      else if ¬ In32 (adjOf p l n) then .ub .float_cast_range
-      else if l.index + adjOf p l n ≤ p.index then .throw .invalid_argument
-      else if ¬ In32 (l.index + adjOf p l n) then .ub .signed_overflow
-      else .ok (pre ++ [p, last' p l n]) := by
-  have hr : (pre ++ [p, l]).reverse = l :: p :: pre.reverse := by simp
-  unfold fixLast
-  rw [hr]
-  dsimp only
-  rcases chk32_cases (l.index - p.index) with ⟨h1, e1⟩ | ⟨h1, e1⟩
-  · rw [e1, if_neg (not_not.mpr h1)]
-    simp only [Res.bind_ok]
-    show (match (if In32 (adjOf p l n) then some (adjOf p l n) else none) with
-      | none => _ | some adj => _) = _
-    by_cases h2 : In32 (adjOf p l n)
-    · rw [if_pos h2, if_neg (not_not.mpr h2)]
-      dsimp only
-      by_cases h3 : l.index + adjOf p l n ≤ p.index
-      · rw [if_pos h3, if_pos h3]
-      · rw [if_neg h3, if_neg h3]
-        rcases chk32_cases (l.index + adjOf p l n) with ⟨h4, e4⟩ | ⟨h4, e4⟩
-        · rw [if_neg (not_not.mpr h4)]
-          show (chk32 (l.index + adjOf p l n) >>= _) = _
-          rw [e4]
-          simp [last', qNum, adjOf, qtempo]
-        · rw [if_pos h4]
-          show (chk32 (l.index + adjOf p l n) >>= _) = _
-          rw [e4]; rfl
-    · rw [if_neg h2, if_pos h2]
-  · rw [e1, if_pos h1]; rfl
-
-theorem fixLast_short (g : List (Marker ℚ)) (n : Int) (h : g.length < 2) :
-    fixLast qNum g n = .ok g := by
-  rcases g with _ | ⟨a, _ | ⟨b, rest⟩⟩
-  · rfl
-  · rfl
-  · simp at h; omega
+/-- The last move over ℚ: the four outcomes. -/
+theorem lastStep_q (pre : List (Marker ℚ)) (p l : Marker ℚ) (n : Int) :
+    lastStep qNum pre p l n =
+      if In32 (adjOf p l n) then
+        if l.index + adjOf p l n ≤ p.index then .throw .invalid_argument
+        else if 2147483647 < l.index + adjOf p l n then .throw .invalid_argument
+        else .ok (pre ++ [p, last' p l n])
+      else .throw .invalid_argument := by
+  unfold lastStep
+  rw [qNum_ceil32, beatsToEnd_q]
+  show (match (if In32 (adjOf p l n) then some (adjOf p l n) else none) with
+    | none => _ | some adj => _) = _
+  by_cases h : In32 (adjOf p l n)
+  · rw [if_pos h, if_pos h]
+    dsimp only
+    rw [lastOf_q]
+  · rw [if_neg h, if_neg h]
 
 /-! ### arithmetic of one segment -/
 
@@ -259,20 +221,7 @@ theorem trimStart_eq (g : List (Marker ℚ)) :
     trimStart qNum g =
       if g.findIdx (fun m => decide ((0 : ℚ) < m.off)) = 0 then g
       else g.drop (g.findIdx (fun m => decide ((0 : ℚ) < m.off)) - 1) := by
-  simp [trimStart, qNum]
-
-theorem trimEnd_prefix (g : List (Marker ℚ)) (n : Int) : trimEnd qNum g n <+: g := by
-  rw [trimEnd_eq]; split
-  · exact List.take_prefix _ _
-  · exact List.prefix_refl _
-
-theorem trimStart_suffix (g : List (Marker ℚ)) : trimStart qNum g <:+ g := by
-  rw [trimStart_eq]; split
-  · exact List.suffix_refl _
-  · exact List.drop_suffix _ _
-
-theorem trim_infix (g : List (Marker ℚ)) (n : Int) : trim qNum g n <:+: g :=
-  (trimStart_suffix _).isInfix.trans (trimEnd_prefix g n).isInfix
+  simp [trimStart, qNum, ratNum]
 
 theorem QSorted.of_infix {l₁ l₂ : List (Marker ℚ)} (h : l₁ <:+: l₂) (hs : QSorted l₂) :
     QSorted l₁ := List.Pairwise.sublist h.sublist hs
@@ -311,7 +260,7 @@ theorem trimEnd_dropLast_lt (g : List (Marker ℚ)) (n : Int) :
 
 theorem trim_dropLast_lt (g : List (Marker ℚ)) (n : Int) :
     ∀ m ∈ (trim qNum g n).dropLast, m.off < n := fun m hm =>
-  trimEnd_dropLast_lt g n m (dropLast_subset_of_suffix (trimStart_suffix _) hm)
+  trimEnd_dropLast_lt g n m (dropLast_subset_of_suffix (trimStart_suffix qNum _) hm)
 
 theorem trimStart_second_pos {te : List (Marker ℚ)} {a b : Marker ℚ} {rest : List (Marker ℚ)}
     (hs : QSorted te) (h : trimStart qNum te = a :: b :: rest) : 0 < b.off := by
@@ -336,7 +285,7 @@ theorem trimStart_second_pos {te : List (Marker ℚ)} {a b : Marker ℚ} {rest :
 
 theorem trim_second_pos {g : List (Marker ℚ)} {n : Int} {a b : Marker ℚ}
     {rest : List (Marker ℚ)} (hs : QSorted g) (h : trim qNum g n = a :: b :: rest) : 0 < b.off :=
-  trimStart_second_pos (hs.of_infix (trimEnd_prefix g n).isInfix) h
+  trimStart_second_pos (hs.of_infix (trimEnd_prefix qNum g n).isInfix) h
 
 theorem trimEnd_keeps {g : List (Marker ℚ)} {n : Int} (hs : QSorted g) {m : Marker ℚ}
     (hm : m ∈ g) (h1 : m.off < n) : m ∈ trimEnd qNum g n := by
@@ -403,79 +352,35 @@ theorem trim_id {x y : Marker ℚ} {r : List (Marker ℚ)} {n : Int} (h : 0 < y.
 
 end trim
 
+
 /-! ### shape of a successful normalisation -/
 
 section shape
-
-theorem normalize_eq {g : List (Marker ℚ)} (hne : g ≠ []) (n : Int) :
-    normalize qNum g n = match trim qNum g n with
-      | a :: b :: rest => if b.index ≤ -4 then .throw .invalid_argument
-          else fixFirst qNum (a :: b :: rest) >>= fun f => fixLast qNum f n
-      | _ => .throw .invalid_argument := by
-  unfold normalize
-  have he : g.isEmpty = false := by cases g <;> simp_all
-  rw [he]
-  simp only [Bool.false_eq_true, if_false]
-  generalize trim qNum g n = t
-  rcases t with _ | ⟨a, _ | ⟨b, rest⟩⟩ <;> rfl
-
-theorem exists_append_two {α} (x y : α) (r : List α) : ∃ pre p l, x :: y :: r = pre ++ [p, l] := by
-  induction r generalizing x y with
-  | nil => exact ⟨[], x, y, rfl⟩
-  | cons z r ih =>
-    obtain ⟨pre, p, l, h⟩ := ih y z
-    exact ⟨x :: pre, p, l, by rw [h]; rfl⟩
-
-theorem shape_cases {α} {a' b : α} {rest pre : List α} {p l : α}
-    (h : a' :: b :: rest = pre ++ [p, l]) :
-    (pre = [] ∧ p = a' ∧ l = b ∧ rest = []) ∨
-      ∃ pre', pre = a' :: pre' ∧ b :: rest = pre' ++ [p, l] := by
-  cases pre with
-  | nil =>
-    left
-    simp only [List.nil_append, List.cons.injEq] at h
-    obtain ⟨rfl, rfl, rfl⟩ := h
-    simp
-  | cons x pre' =>
-    right
-    simp only [List.cons_append, List.cons.injEq] at h
-    exact ⟨pre', by rw [h.1], h.2⟩
 
 /-- Everything one learns from `normalize qNum g n = .ok out` (no sortedness needed). -/
 structure Shape (g : List (Marker ℚ)) (n : Int) (out : List (Marker ℚ))
     (a b : Marker ℚ) (rest pre : List (Marker ℚ)) (p l : Marker ℚ) : Prop where
   ht : trim qNum g n = a :: b :: rest
   hb4 : -4 < b.index
-  hdi : In32 (b.index - a.index)
-  hk : In32 (4 + a.index)
   hf : first' a b :: b :: rest = pre ++ [p, l]
-  hdl : In32 (l.index - p.index)
   hadj : In32 (adjOf p l n)
   hil : p.index < (last' p l n).index
-  hil32 : In32 (last' p l n).index
+  hil32 : (last' p l n).index ≤ 2147483647
   hout : out = pre ++ [p, last' p l n]
 
-theorem normalize_ok_shape {g out : List (Marker ℚ)} {n : Int} (hne : g ≠ [])
+theorem normalize_ok_shape_q {g out : List (Marker ℚ)} {n : Int} (hne : g ≠ []) (hi : Idx32 g)
     (h : normalize qNum g n = .ok out) :
     ∃ a b rest pre p l, Shape g n out a b rest pre p l := by
-  rw [normalize_eq hne] at h
-  split at h
-  · rename_i a b rest ht
-    split at h
-    · exact absurd h (by simp)
-    · rename_i hb4
-      rw [fixFirst_eq] at h
-      split at h
-      · rename_i h12
-        simp only [Res.bind_ok] at h
-        obtain ⟨pre, p, l, hf⟩ := exists_append_two (first' a b) b rest
-        rw [hf, fixLast_append_two] at h
-        split_ifs at h with h1 h2 h3 h4
-        simp only [Res.ok.injEq] at h
-        exact ⟨a, b, rest, pre, p, l, ht, by omega, h12.1, h12.2, hf, h1,
-          h2, by rw [last'_index]; omega, h4, h.symm⟩
-      · exact absurd h (by simp)
-  · exact absurd h (by simp)
+  obtain ⟨a, b, rest, pre, p, l, adj, sh⟩ := normalize_ok_shape qNum ratNum_ceil32Ok hne hi h
+  have hce := sh.hce
+  rw [qNum_ceil32, beatsToEnd_q] at hce
+  have hadj : adj = adjOf p l n := by
+    unfold adjOf
+    split at hce
+    · exact (Option.some.inj hce).symm
+    · cases hce
+  subst hadj
+  exact ⟨a, b, rest, pre, p, l, sh.ht, sh.hb4, sh.hf, sh.hadj, sh.hil, sh.hil32, sh.hout⟩
 
 /-- Sortedness consequences. -/
 theorem sorted_first {a b : Marker ℚ} {rest : List (Marker ℚ)} (hs : QSorted (a :: b :: rest))
@@ -540,7 +445,7 @@ structure SShape (g : List (Marker ℚ)) (n : Int) (out : List (Marker ℚ))
 theorem Shape.toSShape {g out : List (Marker ℚ)} {n : Int} {a b : Marker ℚ}
     {rest pre : List (Marker ℚ)} {p l : Marker ℚ} (hs : QSorted g)
     (sh : Shape g n out a b rest pre p l) : SShape g n out a b rest pre p l := by
-  have st : QSorted (a :: b :: rest) := sh.ht ▸ hs.of_infix (trim_infix g n)
+  have st : QSorted (a :: b :: rest) := sh.ht ▸ hs.of_infix (trim_infix qNum g n)
   have hab := (List.pairwise_cons.mp st).1 b (by simp)
   have sf := sorted_first st sh.hb4
   have sf' : QSorted (pre ++ [p, l]) := sh.hf ▸ sf
@@ -550,9 +455,9 @@ theorem Shape.toSShape {g out : List (Marker ℚ)} {n : Int} {a b : Marker ℚ}
     spos := qtempo_pos hpl.1 hpl.2, sout := sh.hout ▸ sorted_last sf' sh.hil }
 
 theorem normalize_ok_sshape {g out : List (Marker ℚ)} {n : Int} (hs : QSorted g) (hne : g ≠ [])
-    (h : normalize qNum g n = .ok out) :
+    (hi : Idx32 g) (h : normalize qNum g n = .ok out) :
     ∃ a b rest pre p l, SShape g n out a b rest pre p l := by
-  obtain ⟨a, b, rest, pre, p, l, sh⟩ := normalize_ok_shape hne h
+  obtain ⟨a, b, rest, pre, p, l, sh⟩ := normalize_ok_shape_q hne hi h
   exact ⟨a, b, rest, pre, p, l, sh.toSShape hs⟩
 
 end shape
@@ -572,57 +477,28 @@ theorem getElem?_ult {α} (pre : List α) (p l : α) :
   rw [this, List.getElem?_append_right (by omega)]
   simp
 
-theorem c20_interior_unchanged (h : normalize qNum g n = .ok out) (hne : g ≠ []) :
-    out.length = (trim qNum g n).length ∧
-    ∀ i, 0 < i → i + 1 < out.length → out[i]? = (trim qNum g n)[i]? := by
-  obtain ⟨a, b, rest, pre, p, l, sh⟩ := normalize_ok_shape hne h
-  have hlen : rest.length + 2 = pre.length + 2 := by simpa using congrArg List.length sh.hf
-  rw [sh.ht, sh.hout]
-  refine ⟨by simp only [List.length_append, List.length_cons, List.length_nil]; omega, ?_⟩
-  intro i hi0 hi
-  have hi' : i < pre.length + 1 := by
-    simp only [List.length_append, List.length_cons, List.length_nil] at hi; omega
-  have e1 : (pre ++ [p, last' p l n])[i]? = (pre ++ [p, l])[i]? := by
-    rw [show pre ++ [p, last' p l n] = (pre ++ [p]) ++ [last' p l n] by simp,
-      show pre ++ [p, l] = (pre ++ [p]) ++ [l] by simp]
-    have hlen' : i < (pre ++ [p]).length := by
-      simp only [List.length_append, List.length_cons, List.length_nil]; omega
-    rw [List.getElem?_append_left hlen', List.getElem?_append_left hlen']
-  rw [e1, ← sh.hf]
-  cases i with
-  | zero => omega
-  | succ j => rfl
-
-theorem c20_first_index (h : normalize qNum g n = .ok out) (hne : g ≠ []) :
-    ∃ m, out.head? = some m ∧ m.index = -4 := by
-  obtain ⟨a, b, rest, pre, p, l, sh⟩ := normalize_ok_shape hne h
-  rw [sh.hout]
-  rcases shape_cases sh.hf with ⟨rfl, rfl, rfl, rfl⟩ | ⟨pre', rfl, -⟩
-  · exact ⟨_, rfl, rfl⟩
-  · exact ⟨_, rfl, rfl⟩
-
-theorem c20_sorted (hs : QSorted g) (h : normalize qNum g n = .ok out) (hne : g ≠ []) :
+theorem c20_sorted (hs : QSorted g) (hi : Idx32 g) (h : normalize qNum g n = .ok out) (hne : g ≠ []) :
     QSorted out := by
-  obtain ⟨a, b, rest, pre, p, l, sh⟩ := normalize_ok_sshape hs hne h
+  obtain ⟨a, b, rest, pre, p, l, sh⟩ := normalize_ok_sshape hs hne hi h
   exact sh.sout
 
-theorem c20_bracket (hs : QSorted g) (h : normalize qNum g n = .ok out) (hne : g ≠ []) :
+theorem c20_bracket (hs : QSorted g) (hi : Idx32 g) (h : normalize qNum g n = .ok out) (hne : g ≠ []) :
     ∃ p l, out[out.length - 2]? = some p ∧ out[out.length - 1]? = some l ∧
       (n : ℚ) ≤ l.off ∧ l.off < (n : ℚ) + qtempo p l := by
-  obtain ⟨a, b, rest, pre, p, l, sh⟩ := normalize_ok_sshape hs hne h
+  obtain ⟨a, b, rest, pre, p, l, sh⟩ := normalize_ok_sshape hs hne hi h
   refine ⟨p, last' p l n, ?_, ?_, last'_ge sh.spos, ?_⟩
   · rw [sh.hout]; exact getElem?_penult _ _ _
   · rw [sh.hout]; exact getElem?_ult _ _ _
   · rw [qtempo_last' sh.hpli sh.hil]; exact last'_lt sh.spos
 
-theorem c20_tempo_kept (hs : QSorted g) (h : normalize qNum g n = .ok out) (hne : g ≠ []) :
+theorem c20_tempo_kept (hs : QSorted g) (hi : Idx32 g) (h : normalize qNum g n = .ok out) (hne : g ≠ []) :
     (∀ x y x' y', (trim qNum g n)[0]? = some x → (trim qNum g n)[1]? = some y →
         out[0]? = some x' → out[1]? = some y' → qtempo x' y' = qtempo x y) ∧
     (∀ x y x' y', (trim qNum g n)[(trim qNum g n).length - 2]? = some x →
         (trim qNum g n)[(trim qNum g n).length - 1]? = some y →
         out[out.length - 2]? = some x' → out[out.length - 1]? = some y' →
         qtempo x' y' = qtempo x y) := by
-  obtain ⟨a, b, rest, pre, p, l, sh⟩ := normalize_ok_sshape hs hne h
+  obtain ⟨a, b, rest, pre, p, l, sh⟩ := normalize_ok_sshape hs hne hi h
   have hfirst := qtempo_first' sh.habi sh.hb4
   have hlast := qtempo_last' (n := n) sh.hpli sh.hil
   constructor
@@ -689,35 +565,23 @@ theorem same_head {α} {b : α} {rest pre' : List α} {p l l' : α}
     simp only [List.cons_append, List.cons.injEq] at h
     exact ⟨pre'' ++ [p, l'], by rw [h.1]; rfl⟩
 
-/-- Exact outcome of normalising a normalised grid again: it is returned unchanged unless one of
-three `int` computations (`second.index + 4`, `last.index − prev.index`, `last.index`) leaves
-`int32_t`. -/
-theorem c20_renormalize (hs : QSorted g) (hn : 0 < n) (h : normalize qNum g n = .ok out)
-    (hne : g ≠ []) :
-    ∃ y p l', out[1]? = some y ∧ out[out.length - 2]? = some p ∧
-      out[out.length - 1]? = some l' ∧ -4 < y.index ∧ -4 ≤ p.index ∧ p.index < l'.index ∧
-      normalize qNum out n =
-        if In32 (y.index + 4) ∧ In32 (l'.index - p.index) ∧ In32 l'.index then .ok out
-        else .ub .signed_overflow := by
-  obtain ⟨a, b, rest, pre, p, l, sh⟩ := normalize_ok_sshape hs hne h
+
+/-- Normalising a normalised grid again returns it unchanged (exact over ℚ).  No overflow caveat
+is left: the repaired code does its index arithmetic at 64 bits. -/
+theorem c20_idempotent (hs : QSorted g) (hi : Idx32 g) (hn : 0 < n)
+    (h : normalize qNum g n = .ok out) (hne : g ≠ []) :
+    normalize qNum out n = .ok out := by
+  obtain ⟨a, b, rest, pre, p, l, sh⟩ := normalize_ok_sshape hs hne hi h
+  have hio : Idx32 out := gen_out_idx32 ratNum_ceil32Ok hi h hne
   have hn' : (0 : ℚ) < n := by exact_mod_cast hn
   have hlast := qtempo_last' (n := n) sh.hpli sh.hil
   have hge := last'_ge (n := n) sh.spos
   have hlt := last'_lt (n := n) sh.spos
   have sf' : QSorted (pre ++ [p, l]) := sh.hf ▸ sh.sf
-  -- the previous marker is before the end (this is what the new check of `fixLast` buys)
+  -- the previous marker is before the end
   have hpn : p.off < n := by
     have := (last'_index_le_iff (n := n) sh.hpli sh.hplo).not.mp (not_le.mpr sh.hil)
     exact not_le.mp this
-  -- every marker of the intermediate grid has index ≥ -4
-  have hidx : ∀ m ∈ pre ++ [p, l], -4 ≤ m.index := by
-    rw [← sh.hf]
-    intro m hm
-    rcases List.mem_cons.mp hm with rfl | hm
-    · simp
-    · have := ((List.pairwise_cons.mp sh.sf).1 m hm).1
-      simp only [first'_index] at this; omega
-  have hp4 : -4 ≤ p.index := hidx p (by simp)
   -- all but the last marker of `out` are before the end
   have hdl : ∀ m ∈ out.dropLast, m.off < n := by
     rw [sh.hout, show pre ++ [p, last' p l n] = (pre ++ [p]) ++ [last' p l n] by simp,
@@ -749,151 +613,361 @@ theorem c20_renormalize (hs : QSorted g) (hn : 0 < n) (h : normalize qNum g n = 
     · rw [hlast]; exact sh.spos
     · exact hge
     · rw [hlast]; exact hlt
-  refine ⟨y, p, last' p l n, by rw [hout2]; rfl, by rw [sh.hout]; exact getElem?_penult _ _ _,
-    by rw [sh.hout]; exact getElem?_ult _ _ _, hy4, hp4, sh.hil, ?_⟩
-  rw [normalize_eq hne', htrim]
-  dsimp only
-  rw [if_neg (not_le.mpr hy4), fixFirst_eq]
-  have c1 : (In32 (y.index - (first' a b).index) ∧ In32 (4 + (first' a b).index)) ↔
-      In32 (y.index + 4) := by
-    rw [first'_index]; unfold In32; omega
-  by_cases hc1 : In32 (y.index + 4)
-  · rw [if_pos (c1.mpr hc1), first'_fixed first'_index]
-    simp only [Res.bind_ok]
-    rw [← hout2, sh.hout, fixLast_append_two, hadj, last'_fixed hadj]
-    have e2 : In32 0 := by constructor <;> omega
-    have e3 : ¬ (last' p l n).index + 0 ≤ p.index := by have := sh.hil; omega
-    rw [if_neg (not_not.mpr e2), if_neg e3, Int.add_zero]
-    by_cases hc2 : In32 ((last' p l n).index - p.index)
-    · by_cases hc3 : In32 (last' p l n).index
-      · rw [if_neg (not_not.mpr hc2), if_neg (not_not.mpr hc3), if_pos ⟨hc1, hc2, hc3⟩]
-      · rw [if_neg (not_not.mpr hc2), if_pos hc3, if_neg (fun hh => hc3 hh.2.2)]
-    · rw [if_pos hc2, if_neg (fun hh => hc2 hh.2.1)]
-  · rw [if_neg (c1.not.mpr hc1), if_neg (fun hh => hc1 hh.1)]
-    rfl
+  have hf2 : firstOf qNum (first' a b) y :: y :: r = pre ++ [p, last' p l n] := by
+    rw [firstOf_q, first'_fixed first'_index, ← hout2, sh.hout]
+  rw [normalize_eq_of_shape qNum ratNum_ceil32Ok hne' hio htrim (not_le.mpr hy4) hf2, lastStep_q,
+    hadj, last'_fixed hadj]
+  have e2 : In32 0 := by constructor <;> omega
+  have e3 : ¬ (last' p l n).index + 0 ≤ p.index := by have := sh.hil; omega
+  have e4 : ¬ 2147483647 < (last' p l n).index + 0 := by have := sh.hil32; omega
+  rw [if_pos e2, if_neg e3, if_neg e4, sh.hout]
 
-theorem c20_idempotent (hs : QSorted g) (hn : 0 < n) (h : normalize qNum g n = .ok out)
-    (hne : g ≠ []) (hfit : ∀ m ∈ out, m.index ≤ 2147483643) :
-    normalize qNum out n = .ok out := by
-  obtain ⟨y, p, l', hy, hp, hl', hy4, hp4, hpl, hN⟩ := c20_renormalize hs hn h hne
-  have hyfit := hfit y (List.mem_of_getElem? hy)
-  have hlfit := hfit l' (List.mem_of_getElem? hl')
-  rw [hN, if_pos]
-  unfold In32
-  omega
+/-! ### rejection -/
 
-/-- Hypothesis-free form: the second run returns the grid unchanged or overflows an `int`. -/
-theorem c20_idempotent_or_overflow (hs : QSorted g) (hn : 0 < n)
-    (h : normalize qNum g n = .ok out) (hne : g ≠ []) :
-    normalize qNum out n = .ok out ∨ normalize qNum out n = .ub .signed_overflow := by
-  obtain ⟨y, p, l', -, -, -, -, -, -, hN⟩ := c20_renormalize hs hn h hne
-  rw [hN]
-  split
-  · exact Or.inl rfl
-  · exact Or.inr rfl
+/-- The last move cannot be carried out in the index type: the number of beats to the end does
+not fit `int32_t`, or the new last index would exceed `INT32_MAX`. -/
+def Unrepr (p l : Marker ℚ) (n : Int) : Prop :=
+  ¬ In32 (adjOf p l n) ∨ 2147483647 < l.index + adjOf p l n
 
-/-- What `normalize` computes once the trimmed grid has two or more markers, the second of them
-after beat −4. -/
-theorem normalize_eq_of_shape {a b : Marker ℚ} {rest pre : List (Marker ℚ)} {p l : Marker ℚ}
-    (hne : g ≠ []) (ht : trim qNum g n = a :: b :: rest) (hb4 : ¬ b.index ≤ -4)
-    (hf : first' a b :: b :: rest = pre ++ [p, l]) :
-    normalize qNum g n =
-      if In32 (b.index - a.index) ∧ In32 (4 + a.index) then
-        if ¬ In32 (l.index - p.index) then .ub .signed_overflow
-        else if ¬ In32 (adjOf p l n) then .ub .float_cast_range
-        else if l.index + adjOf p l n ≤ p.index then .throw .invalid_argument
-        else if ¬ In32 (l.index + adjOf p l n) then .ub .signed_overflow
-        else .ok (pre ++ [p, last' p l n])
-      else .ub .signed_overflow := by
-  rw [normalize_eq hne, ht]
-  dsimp only
-  rw [if_neg hb4, fixFirst_eq]
-  split
-  · simp only [Res.bind_ok]
-    rw [hf, fixLast_append_two]
-  · rfl
+theorem adjOf_first' {a b : Marker ℚ} (hi : a.index < b.index) (h4 : -4 < b.index) :
+    adjOf (first' a b) b n = adjOf a b n := by
+  unfold adjOf; rw [qtempo_first' hi h4]
 
-theorem c20_throw_only_if (hs : QSorted g) (hne : g ≠ [])
-    (h : normalize qNum g n = .throw .invalid_argument) :
-    (trim qNum g n).length < 2 ∨ (∃ m1, (trim qNum g n)[1]? = some m1 ∧ m1.index ≤ -4) ∨
-      (∃ m0 m1, trim qNum g n = [m0, m1] ∧
-        (n : ℚ) ≤ m0.off + (((-4 - m0.index : Int)) : ℚ) * qtempo m0 m1) := by
+/-- The rejection set, exactly (sorted grid with `int` indices). -/
+theorem c20_throw_iff (hs : QSorted g) (hi : Idx32 g) (hne : g ≠ []) :
+    normalize qNum g n = .throw .invalid_argument ↔
+      ((trim qNum g n).length < 2 ∨ (∃ m1, (trim qNum g n)[1]? = some m1 ∧ m1.index ≤ -4) ∨
+       (∃ m0 m1, trim qNum g n = [m0, m1] ∧
+          (n : ℚ) ≤ m0.off + (((-4 - m0.index : Int)) : ℚ) * qtempo m0 m1) ∨
+       (∃ p l, (trim qNum g n)[(trim qNum g n).length - 2]? = some p ∧
+          (trim qNum g n)[(trim qNum g n).length - 1]? = some l ∧
+          2 ≤ (trim qNum g n).length ∧ Unrepr p l n)) := by
   rcases ht : trim qNum g n with _ | ⟨a, _ | ⟨b, rest⟩⟩
-  · left; simp
-  · left; simp
-  · right
-    by_cases hb4 : b.index ≤ -4
-    · left; exact ⟨b, rfl, hb4⟩
-    · right
-      obtain ⟨pre, p, l, hf⟩ := exists_append_two (first' a b) b rest
-      rw [normalize_eq_of_shape hne ht hb4 hf] at h
-      split_ifs at h with h12 h1 h2 h3
-      have st : QSorted (a :: b :: rest) := ht ▸ hs.of_infix (trim_infix g n)
+  · exact ⟨fun _ => Or.inl (by simp), fun _ => gen_reject_of hne (Or.inl (by rw [ht]; simp))⟩
+  · exact ⟨fun _ => Or.inl (by simp), fun _ => gen_reject_of hne (Or.inl (by rw [ht]; simp))⟩
+  · by_cases hb4 : b.index ≤ -4
+    · exact ⟨fun _ => Or.inr (Or.inl ⟨b, rfl, hb4⟩),
+        fun _ => gen_reject_of hne (Or.inr ⟨b, by rw [ht]; rfl, hb4⟩)⟩
+    · obtain ⟨pre, p, l, hf⟩ := exists_append_two (first' a b) b rest
+      rw [normalize_eq_of_shape qNum ratNum_ceil32Ok hne hi ht hb4 hf, lastStep_q]
+      have st : QSorted (a :: b :: rest) := ht ▸ hs.of_infix (trim_infix qNum g n)
       have hab := (List.pairwise_cons.mp st).1 b (by simp)
       have sf := sorted_first st (not_le.mp hb4)
       have sf' : QSorted (pre ++ [p, l]) := hf ▸ sf
       have hpl := sorted_pl sf'
-      have hnp : (n : ℚ) ≤ p.off := (last'_index_le_iff hpl.1 hpl.2).mp h3
-      rcases shape_cases hf with ⟨-, hp, -, hrest⟩ | ⟨pre', -, hbr⟩
-      · refine ⟨a, b, by rw [hrest], ?_⟩
-        rw [hp, first'_off] at hnp
-        push_cast
-        linarith
-      · exfalso
-        have hmem : p ∈ (trim qNum g n).dropLast := by
-          rw [ht, hbr, show a :: (pre' ++ [p, l]) = (a :: pre' ++ [p]) ++ [l] by simp,
-            List.dropLast_concat]
-          simp
-        have := trim_dropLast_lt g n p hmem
-        linarith
+      have hiff := last'_index_le_iff (n := n) hpl.1 hpl.2
+      rw [last'_index] at hiff
+      -- the last two markers of the trimmed grid, and how `p`, `l` relate to them
+      have hlast2 : ∃ p0, (a :: b :: rest)[(a :: b :: rest).length - 2]? = some p0 ∧
+          (a :: b :: rest)[(a :: b :: rest).length - 1]? = some l ∧
+          adjOf p0 l n = adjOf p l n ∧ (rest = [] → p0 = a ∧ p = first' a b ∧ l = b) ∧
+          (rest ≠ [] → p0 ∈ (a :: b :: rest).dropLast ∧ p0 = p) := by
+        rcases shape_cases hf with ⟨-, hp, hl, hrest⟩ | ⟨pre', -, hbr⟩
+        · refine ⟨a, by rw [hrest]; rfl, by rw [hrest, hl]; rfl, ?_, fun _ => ⟨rfl, hp, hl⟩,
+            fun h => absurd hrest h⟩
+          rw [hp, hl]; exact (adjOf_first' hab.1 (not_le.mp hb4)).symm
+        · have e : a :: b :: rest = (a :: pre') ++ [p, l] := by rw [hbr]; rfl
+          refine ⟨p, by rw [e]; exact getElem?_penult _ _ _, by rw [e]; exact getElem?_ult _ _ _,
+            rfl, fun h => ?_, fun _ => ⟨?_, rfl⟩⟩
+          · exfalso
+            rw [h] at hbr
+            have := congrArg List.length hbr
+            simp at this
+          · rw [e, show (a :: pre') ++ [p, l] = (a :: pre' ++ [p]) ++ [l] by simp,
+              List.dropLast_concat]
+            simp
+      obtain ⟨p0, hp0, hl0, hadj0, htwo, hlong⟩ := hlast2
+      have hlen2 : 2 ≤ (a :: b :: rest).length := by simp
+      constructor
+      · intro h
+        right; right
+        by_cases h1 : In32 (adjOf p l n)
+        · rw [if_pos h1] at h
+          by_cases h2 : l.index + adjOf p l n ≤ p.index
+          · have hnp : (n : ℚ) ≤ p.off := hiff.mp h2
+            by_cases hr : rest = []
+            · left
+              obtain ⟨-, hp, -⟩ := htwo hr
+              refine ⟨a, b, by rw [hr], ?_⟩
+              rw [hp, first'_off] at hnp
+              push_cast
+              linarith
+            · exfalso
+              obtain ⟨hmem, hpp⟩ := hlong hr
+              have := trim_dropLast_lt g n p0 (by rw [ht]; exact hmem)
+              rw [hpp] at this
+              linarith
+          · rw [if_neg h2] at h
+            by_cases h3 : 2147483647 < l.index + adjOf p l n
+            · right
+              exact ⟨p0, l, hp0, hl0, hlen2, Or.inr (by rw [hadj0]; exact h3)⟩
+            · rw [if_neg h3] at h
+              cases h
+        · right
+          exact ⟨p0, l, hp0, hl0, hlen2, Or.inl (by rw [hadj0]; exact h1)⟩
+      · rintro (hlen | ⟨m1, hm1, hidx⟩ | ⟨m0, m1, hm, hnle⟩ | ⟨p1, l1, hp1, hl1, -, hun⟩)
+        · exfalso; simp only [List.length_cons] at hlen; omega
+        · simp only [List.getElem?_cons_succ, List.getElem?_cons_zero, Option.some.injEq] at hm1
+          subst hm1
+          exact absurd hidx hb4
+        · simp only [List.cons.injEq] at hm
+          obtain ⟨rfl, rfl, hr⟩ := hm
+          obtain ⟨-, hp, hl⟩ := htwo hr
+          have hle : l.index + adjOf p l n ≤ p.index := by
+            apply hiff.mpr
+            rw [hp, first'_off]
+            push_cast at hnle
+            linarith
+          by_cases h1 : In32 (adjOf p l n)
+          · rw [if_pos h1, if_pos hle]
+          · rw [if_neg h1]
+        · rw [hp0] at hp1
+          rw [hl0] at hl1
+          cases hp1; cases hl1
+          unfold Unrepr at hun
+          rw [hadj0] at hun
+          by_cases h1 : In32 (adjOf p l n)
+          · rw [if_pos h1]
+            by_cases h2 : l.index + adjOf p l n ≤ p.index
+            · rw [if_pos h2]
+            · rw [if_neg h2]
+              rcases hun with hu | hu
+              · exact absurd h1 hu
+              · rw [if_pos hu]
+          · rw [if_neg h1]
 
-/-- The two unconditional causes of rejection (no sortedness, no overflow caveat). -/
-theorem c20_reject_of (hne : g ≠ [])
-    (hc : (trim qNum g n).length < 2 ∨
-      ∃ m1, (trim qNum g n)[1]? = some m1 ∧ m1.index ≤ -4) :
-    normalize qNum g n = .throw .invalid_argument := by
-  rw [normalize_eq hne]
-  rcases ht : trim qNum g n with _ | ⟨a, _ | ⟨b, rest⟩⟩
-  · rfl
-  · rfl
-  · rw [ht] at hc
-    rcases hc with hlen | ⟨m1, hm1, hidx⟩
-    · exfalso
-      simp only [List.length_cons] at hlen
-      omega
-    · simp only [List.getElem?_cons_succ, List.getElem?_cons_zero, Option.some.injEq] at hm1
-      subst hm1
-      dsimp only
-      rw [if_pos hidx]
+/-- Not rejected means normalised: with `int` indices there is no third outcome. -/
+theorem c20_ok_of_not_throw (hi : Idx32 g)
+    (h : normalize qNum g n ≠ .throw .invalid_argument) : ∃ out, normalize qNum g n = .ok out := by
+  rcases gen_ok_or_invalid (num := qNum) (n := n) ratNum_ceil32Ok hi with h' | h'
+  · exact h'
+  · exact absurd h' h
 
-theorem c20_reject_iff (hs : QSorted g) (hne : g ≠ [])
-    (hnub : ∀ u, normalize qNum g n ≠ .ub u) :
-    normalize qNum g n = .throw .invalid_argument ↔
-      ((trim qNum g n).length < 2 ∨ (∃ m1, (trim qNum g n)[1]? = some m1 ∧ m1.index ≤ -4) ∨
-        (∃ m0 m1, trim qNum g n = [m0, m1] ∧
-          (n : ℚ) ≤ m0.off + (((-4 - m0.index : Int)) : ℚ) * qtempo m0 m1)) := by
-  refine ⟨c20_throw_only_if hs hne, ?_⟩
-  rintro (hlen | hidx | ⟨a, b, ht, hnle⟩)
-  · exact c20_reject_of hne (Or.inl hlen)
-  · exact c20_reject_of hne (Or.inr hidx)
-  · by_cases hb4 : b.index ≤ -4
-    · exact c20_reject_of hne (Or.inr ⟨b, by rw [ht]; rfl, hb4⟩)
-    · have hf : first' a b :: b :: [] = [] ++ [first' a b, b] := rfl
-      have hN := normalize_eq_of_shape hne ht hb4 hf
-      have st : QSorted [a, b] := ht ▸ hs.of_infix (trim_infix g n)
-      have hab := (List.pairwise_cons.mp st).1 b (by simp)
-      have hi : (first' a b).index < b.index := by rw [first'_index]; omega
-      have ho := first'_lt hab.1 hab.2 (not_le.mp hb4)
-      have hle : b.index + adjOf (first' a b) b n ≤ (first' a b).index := by
-        have := (last'_index_le_iff (n := n) hi ho).mpr (by
-          rw [first'_off]
-          push_cast at hnle
-          linarith)
-        simpa using this
-      rw [hN]
-      rw [hN] at hnub
-      split_ifs at hnub ⊢ with h12 h1 h2
-      all_goals first | rfl | (exfalso; exact hnub _ rfl)
+/-! ### what trimming keeps, in terms of the input grid -/
+
+theorem trim_eq_window_q (hs : QSorted g) (hn : 0 < n) : trim qNum g n = window qNum g n := by
+  apply trim_eq_window qNum_ordLaws ((qSorted_iff g).mp hs)
+  show decide (((0 : Int) : ℚ) < (n : ℚ)) = true
+  exact decide_eq_true (by exact_mod_cast hn)
+
+/-- Fewer than two markers, or wholly at-or-before sample 0, or wholly at-or-beyond the end:
+trimming leaves fewer than two markers (no sortedness needed). -/
+theorem trim_short_of (h : g.length < 2 ∨ (∀ m ∈ g, m.off ≤ 0) ∨ (∀ m ∈ g, (n : ℚ) ≤ m.off)) :
+    (trim qNum g n).length < 2 := by
+  rcases h with h | h | h
+  · exact lt_of_le_of_lt (trim_infix qNum g n).length_le h
+  · unfold trim
+    have hte : ∀ m ∈ trimEnd qNum g n, m.off ≤ 0 := fun m hm =>
+      h m ((trimEnd_prefix qNum g n).subset hm)
+    generalize trimEnd qNum g n = te at hte
+    rw [trimStart_eq]
+    have hj : te.findIdx (fun m => decide ((0 : ℚ) < m.off)) = te.length := by
+      rw [List.findIdx_eq_length]
+      intro x hx
+      exact decide_eq_false (not_lt.mpr (hte x hx))
+    rw [hj]
+    split
+    · rename_i h0; rw [List.length_eq_zero_iff.mp h0]; simp
+    · rw [List.length_drop]; omega
+  · have hle : (trimEnd qNum g n).length < 2 := by
+      rw [trimEnd_eq]
+      cases g with
+      | nil => simp
+      | cons x xs =>
+        have hx : decide ((n : ℚ) ≤ x.off) = true := decide_eq_true (h x (by simp))
+        simp [List.findIdx?_cons, hx]
+    exact lt_of_le_of_lt (trimStart_suffix qNum _).length_le hle
+
+/-- **A grid overlaps the track exactly when trimming leaves two or more markers**: it has at
+least two markers, one of them after sample 0 and one of them before the end. -/
+theorem trim_length_ge_two_iff (hs : QSorted g) (hn : 0 < n) :
+    2 ≤ (trim qNum g n).length ↔
+      2 ≤ g.length ∧ (∃ m ∈ g, 0 < m.off) ∧ (∃ m ∈ g, m.off < (n : ℚ)) := by
+  have hn' : (0 : ℚ) < n := by exact_mod_cast hn
+  constructor
+  · intro h
+    by_contra hc
+    have : g.length < 2 ∨ (∀ m ∈ g, m.off ≤ 0) ∨ (∀ m ∈ g, (n : ℚ) ≤ m.off) := by
+      by_cases h1 : 2 ≤ g.length
+      · by_cases h2 : ∃ m ∈ g, 0 < m.off
+        · right; right
+          intro m hm
+          by_contra hlt
+          exact hc ⟨h1, h2, m, hm, not_le.mp hlt⟩
+        · right; left
+          intro m hm
+          by_contra hlt
+          exact h2 ⟨m, hm, not_le.mp hlt⟩
+      · left; omega
+    have := trim_short_of (n := n) this
+    omega
+  · rintro ⟨hlen, ⟨m1, hm1, hpos⟩, ⟨m2, hm2, hend⟩⟩
+    have hsb := (qSorted_iff g).mp hs
+    unfold trim
+    rcases trimEnd_cases (num := qNum) g n with ⟨he, hall⟩ | ⟨i, hi, he, hle, hbefore, hsplit⟩
+    · rw [he]
+      rcases trimStart_cases (num := qNum) g with ⟨hB, -⟩ | ⟨A, h, t, hte, hB, hh, ht⟩
+      · rw [hB]; exact hlen
+      · rw [hB]
+        rcases ht with rfl | ⟨y, t', rfl, -⟩
+        · exfalso
+          -- every marker is at or before sample 0
+          have hh' : h.off ≤ 0 := not_lt.mp (of_decide_eq_false hh)
+          rw [hte] at hm1 hs
+          rcases List.mem_append.mp hm1 with hA | hA
+          · have := ((List.pairwise_append.mp hs).2.2 m1 hA h (by simp)).2
+            linarith
+          · simp only [List.mem_cons, List.not_mem_nil, or_false] at hA
+            rw [hA] at hpos; linarith
+        · simp
+    · rw [he]
+      have hle' : (n : ℚ) ≤ g[i].off := of_decide_eq_true hle
+      have hi0 : i ≠ 0 := by
+        rintro rfl
+        -- the first marker is already at or beyond the end, so every marker is
+        obtain ⟨k, hk, rfl⟩ := List.mem_iff_getElem.mp hm2
+        rcases Nat.eq_zero_or_pos k with rfl | hkpos
+        · linarith
+        · have := (List.pairwise_iff_getElem.mp hs 0 k hi hk hkpos).2
+          linarith
+      have hlen_te : 2 ≤ (g.take i ++ [g[i]]).length := by
+        rw [List.length_append, List.length_take]; simp; omega
+      rcases trimStart_cases (num := qNum) (g.take i ++ [g[i]]) with
+        ⟨hB, -⟩ | ⟨A, h, t, hte, hB, hh, ht⟩
+      · rw [hB]; exact hlen_te
+      · rw [hB]
+        rcases ht with rfl | ⟨y, t', rfl, -⟩
+        · exfalso
+          have hh' : h.off ≤ 0 := not_lt.mp (of_decide_eq_false hh)
+          have := List.append_inj_right' hte (by simp)
+          simp only [List.cons.injEq, and_true] at this
+          rw [← this] at hh'
+          linarith
+        · simp
+
+/-- The first kept marker is at or before sample 0, or it is the first marker of the grid. -/
+theorem trim_head_cases {a : Marker ℚ} {r : List (Marker ℚ)} (ht : trim qNum g n = a :: r) :
+    a.off ≤ 0 ∨ g.head? = some a := by
+  unfold trim at ht
+  rcases trimStart_cases (num := qNum) (trimEnd qNum g n) with ⟨hB, -⟩ | ⟨A, h, t, -, hB, hh, -⟩
+  · right
+    rw [hB] at ht
+    obtain ⟨C, hC⟩ := trimEnd_prefix qNum g n
+    rw [← hC, ht]; rfl
+  · left
+    rw [hB] at ht
+    cases ht
+    exact not_lt.mp (of_decide_eq_false hh)
+
+theorem getLast?_of_suffix {β} {s t r : List β} {l : β} (h : s <:+ t) (hs : s = r ++ [l]) :
+    t.getLast? = some l := by
+  obtain ⟨pre, rfl⟩ := h
+  rw [hs, ← List.append_assoc, List.getLast?_concat]
+
+/-- The last kept marker is at or beyond the end, or it is the last marker of the grid. -/
+theorem trim_last_cases {l : Marker ℚ} {r : List (Marker ℚ)} (ht : trim qNum g n = r ++ [l]) :
+    (n : ℚ) ≤ l.off ∨ g.getLast? = some l := by
+  have hsuf : trim qNum g n <:+ trimEnd qNum g n := trimStart_suffix qNum _
+  have hlast := getLast?_of_suffix hsuf ht
+  rcases trimEnd_cases (num := qNum) g n with ⟨he, -⟩ | ⟨i, hi, he, hle, -, -⟩
+  · right; rw [he] at hlast; exact hlast
+  · left
+    rw [he, List.getLast?_concat] at hlast
+    cases hlast
+    exact of_decide_eq_true hle
+
+/-- **Interior markers of the input inside the track are in the result unchanged**: a marker
+strictly inside the track that is neither the first nor the last marker of the grid. -/
+theorem c20_interior_kept (hs : QSorted g) (hi : Idx32 g) (h : normalize qNum g n = .ok out)
+    (hne : g ≠ []) {m : Marker ℚ} (hm : m ∈ g) (h0 : 0 < m.off) (h1 : m.off < (n : ℚ))
+    (hbefore : ∃ x ∈ g, x.off < m.off) (hafter : ∃ y ∈ g, m.off < y.off) :
+    m ∈ out.dropLast.tail := by
+  obtain ⟨a, b, rest, pre, p, l, sh⟩ := normalize_ok_shape_q hne hi h
+  have hmt : m ∈ trim qNum g n := trim_keeps hs hm h0 h1
+  -- `m` is not the first kept marker
+  have hma : m ≠ a := by
+    rintro rfl
+    rcases trim_head_cases sh.ht with hle | hhead
+    · linarith
+    · obtain ⟨x, hx, hxm⟩ := hbefore
+      cases g with
+      | nil => cases hm
+      | cons g0 g' =>
+        simp only [List.head?_cons, Option.some.injEq] at hhead
+        subst hhead
+        rcases List.mem_cons.mp hx with rfl | hx
+        · linarith
+        · have := ((List.pairwise_cons.mp hs).1 x hx).2
+          linarith
+  -- the trimmed grid ends with `l`
+  obtain ⟨r0, hr0, hpre0⟩ : ∃ r0, trim qNum g n = r0 ++ [l] ∧ out.dropLast.tail = r0.tail := by
+    rw [sh.ht, sh.hout]
+    rcases shape_cases sh.hf with ⟨rfl, rfl, rfl, rfl⟩ | ⟨pre', rfl, hbr⟩
+    · exact ⟨[a], rfl, rfl⟩
+    · refine ⟨a :: pre' ++ [p], by rw [hbr]; simp, ?_⟩
+      rw [show first' a b :: pre' ++ [p, last' p l n] =
+        (first' a b :: pre' ++ [p]) ++ [last' p l n] by simp, List.dropLast_concat]
+      rfl
+  have hml : m ≠ l := by
+    rintro rfl
+    rcases trim_last_cases hr0 with hle | hlast
+    · linarith
+    · obtain ⟨y, hy, hmy⟩ := hafter
+      obtain ⟨d, z, hdz, hyd⟩ := mem_dropLast_or_last hy
+      rw [hdz, List.getLast?_concat] at hlast
+      cases hlast
+      rcases hyd with hyd | rfl
+      · rw [hdz] at hs
+        have := ((List.pairwise_append.mp hs).2.2 y hyd m (by simp)).2
+        linarith
+      · linarith
+  rw [hpre0]
+  rw [hr0] at hmt
+  rcases List.mem_append.mp hmt with hmr | hml'
+  · rw [sh.ht] at hr0
+    cases r0 with
+    | nil => cases hmr
+    | cons r00 r0' =>
+      have : r00 = a := by
+        have := congrArg List.head? hr0
+        simpa using this.symm
+      subst this
+      rcases List.mem_cons.mp hmr with rfl | hmr'
+      · exact absurd rfl hma
+      · exact hmr'
+  · simp only [List.mem_cons, List.not_mem_nil, or_false] at hml'
+    exact absurd hml' hml
+
+/-- Conversely, every interior marker of the result is a marker of the input strictly inside
+the track. -/
+theorem c20_interior_inside (hs : QSorted g) (hi : Idx32 g) (h : normalize qNum g n = .ok out)
+    (hne : g ≠ []) {m : Marker ℚ} (hm : m ∈ out.dropLast.tail) :
+    m ∈ g ∧ 0 < m.off ∧ m.off < (n : ℚ) := by
+  obtain ⟨a, b, rest, pre, p, l, sh⟩ := normalize_ok_sshape hs hne hi h
+  have sf' : QSorted (pre ++ [p, l]) := sh.hf ▸ sh.sf
+  have hpn : p.off < n := by
+    have := (last'_index_le_iff (n := n) sh.hpli sh.hplo).not.mp (not_le.mpr sh.hil)
+    exact not_le.mp this
+  rw [sh.hout, show pre ++ [p, last' p l n] = (pre ++ [p]) ++ [last' p l n] by simp,
+    List.dropLast_concat] at hm
+  -- `pre ++ [p]` is the trimmed grid without its last marker, with the first one moved
+  have hdl : (first' a b :: b :: rest).dropLast = pre ++ [p] := by
+    rw [sh.hf, show pre ++ [p, l] = (pre ++ [p]) ++ [l] by simp, List.dropLast_concat]
+  have htail : (pre ++ [p]).tail = (b :: rest).dropLast := by
+    rw [← hdl]; rfl
+  rw [htail] at hm
+  have hmt : m ∈ (trim qNum g n).dropLast := by
+    rw [sh.ht]
+    show m ∈ (a :: b :: rest).dropLast
+    rw [List.dropLast_cons_of_ne_nil (by simp)]
+    exact List.mem_cons_of_mem _ hm
+  refine ⟨trim_mem (List.dropLast_subset _ hmt), ?_, trim_dropLast_lt g n m hmt⟩
+  have hb0 : 0 < b.off := trim_second_pos hs sh.ht
+  have hmb : m ∈ b :: rest := List.dropLast_subset _ hm
+  rcases List.mem_cons.mp hmb with rfl | hmr
+  · exact hb0
+  · have := ((List.pairwise_cons.mp (List.pairwise_cons.mp sh.st).2).1 m hmr).2
+    linarith
 
 end props
 
